@@ -290,6 +290,17 @@ func Run(a Matrix, args ...interface{}) (Matrix, Matrix, Matrix, error) {
       panic("InSitu must be passed by reference")
     }
   }
+  if epsilon < 0.0 {
+    return nil, nil, nil, fmt.Errorf("invalid epsilon")
+  }
+  // the convergence tests never succeed on NaN or Inf values
+  for i := 0; i < m; i++ {
+    for j := 0; j < n; j++ {
+      if v := a.ConstAt(i,j).GetFloat64(); math.IsNaN(v) || math.IsInf(v, 0) {
+        return nil, nil, nil, fmt.Errorf("`a' contains NaN or Inf values")
+      }
+    }
+  }
   if inSitu.A == nil {
     inSitu.A = a.CloneMatrix()
   } else {
